@@ -18,3 +18,8 @@ add("C05", "exploration",
     "Trusted: harness/ref strict decoder/unframer/unpacker and the build model.",
     "model-based property testing with an independent strict decoder as validity oracle (rapid)",
     "DESIGN.md section 3, C04/C05")
+add("C17", "exploration",
+    "Generated pairs - one value in two layouts/paddings/list-upgrade forms (expected equal), a value and a one-change mutant (expected unequal), independent values, capability pointers with drawn client identities within and across messages - are compared with capnp.Equal in both directions and against an executable transcription of its doc comment (iff wherever the comment decides the pair), plus reflexivity.",
+    "Trusted: ref.Equal (transcription of the documented rules) and ref.Encode. Pairs the documentation does not decide (empty lists of different kinds, void vs bit list, bit vs struct list, nil clients across messages) are only checked for symmetry and absence of errors.",
+    "property-based metamorphic + differential testing against an executable specification (rapid)",
+    "DESIGN.md section 4, C17")
